@@ -183,7 +183,10 @@ def run_wire(ctx, prop):
                                        "input": {"session": [{"proto": ["http", "grpc", "resp"][o["proto"]], "sent": o["sent"], "wire": o["wire"], "library": o.get("lib")} for o in c["ops"]]}})
             terms.append("(%s, %s)" % (C.coq_bool(exact), C.coq_list(ops)))
             idx.append(n)
-        mism, _ = C.coq_mismatches(ctx, "wire_" + prop, HEADER, "wire_case_ok", terms, shard=12)
+        # the Coq transport model (regenerated glue tables) is C12's; the other properties use the implementation-side oracles above
+        mism = []
+        if prop == "C12":
+            mism, _ = C.coq_mismatches(ctx, "wire_" + prop, HEADER, "wire_case_ok", terms, shard=12)
         for j in mism[:5]:
             c = cases[idx[j]]
             exprs = ["wire_model %s" % C.coq_list([wreq_term(o["sent"]) for o in c["ops"]])]
